@@ -123,6 +123,7 @@ void WriteSolFile(fmt::CStringRef filename, const Solution &sol) {
   suf::Kind kinds[] = {suf::VAR, suf::CON, suf::OBJ, suf::PROBLEM};
   for (std::size_t i = 0, n = sizeof(kinds) / sizeof(*kinds); i < n; ++i)
     internal::WriteSuffixes(file, sol.suffixes(kinds[i]));
+  file.close();       // throws fmt::SystemError if the data could not be written (ENOSPC, EIO)
 }
 
 }  // namepace mp
